@@ -66,6 +66,10 @@ impl<'b, C, T: Decode<'b, C>> Decode<'b, C> for alloc::boxed::Box<T> {
     fn decode(d: &mut Decoder<'b>, ctx: &mut C) -> Result<Self, Error> {
         T::decode(d, ctx).map(alloc::boxed::Box::new)
     }
+
+    fn nil() -> Option<Self> {
+        T::nil().map(alloc::boxed::Box::new)
+    }
 }
 
 impl<'a, 'b: 'a, C> Decode<'b, C> for &'a str {
